@@ -67,10 +67,10 @@ def multinomial_sample_f64 (p : List α) (n : Int) (rng : Rng) : List α × Rng 
 
 /-! ## Empirical -/
 
-/-- `while self.cdf(low) > p { low = low + low; }` -/
+/-- `while self.cdf(low) >= p { low = low + low; }` -/
 def Empirical.invLow (self : Empirical α) (p : α) : Nat → α → LoopR α α
   | 0, _ => LoopR.hang
-  | fuel + 1, low => if p < self.cdf low then Empirical.invLow self p fuel (low + low) else LoopR.done low
+  | fuel + 1, low => if p ≤ self.cdf low then Empirical.invLow self p fuel (low + low) else LoopR.done low
 
 /-- `while self.cdf(high) < p { high = high + high; }` -/
 def Empirical.invHigh (self : Empirical α) (p : α) : Nat → α → LoopR α α
